@@ -102,7 +102,7 @@ def _affine(draw, tier):
     exact = draw(st.booleans())
     nmax = 30 if tier == "quick" else 120
     if exact:
-        sig = draw(gs.signals(2, nmax, kinds=["int5", "int40", "grid"]))
+        sig = draw(gs.signals(2, nmax, kinds=["int5", "int40", "grid"], exact_only=True))
         a = 2.0 ** draw(st.integers(-6, 10))
         b = float(draw(st.integers(-4000, 4000))) / 8.0
     else:
